@@ -103,6 +103,64 @@ def stop_fast_path(dump_node):
     return False, False
 
 
+def _is_format_assign(stmt):
+    return isinstance(stmt, ast.Assign) and len(stmt.targets) == 1 and _text(stmt.targets[0]) == "tbtext" \
+        and "traceback.format_exception(typ, val, tb)" in _text(stmt.value)
+
+
+def tb_guard_shape(stmts):
+    """(guarded, literal) for the branch that formats the traceback: plain assignment -> (False, ""); the assignment inside
+    `try` with `except Exception: tbtext = <literal>` -> (True, literal); anything else -> None"""
+    if len(stmts) == 1 and _is_format_assign(stmts[0]):
+        return False, ""
+    if len(stmts) == 1 and isinstance(stmts[0], ast.Try):
+        t = stmts[0]
+        if len(t.body) == 1 and _is_format_assign(t.body[0]) and len(t.handlers) == 1 and not t.orelse and not t.finalbody \
+                and t.handlers[0].type is not None and _text(t.handlers[0].type) == "Exception":
+            body = [b for b in t.handlers[0].body if not isinstance(b, ast.Pass)]
+            if len(body) == 1 and isinstance(body[0], ast.Assign) and _text(body[0].targets[0]) == "tbtext" \
+                    and _const_str(body[0].value) is not None:
+                return True, _const_str(body[0].value)
+    return None
+
+
+def fallback_facts(protocol):
+    """`Connection._send_exception`: try: send(box_exc) / except EOFError: raise / except Exception: send the fallback
+    record `(name, (note,), (), <literal>)` with name = (str(module), str(name)) and note = <literal>"""
+    fn = getattr(protocol.Connection, "_send_exception", None)
+    if fn is None:
+        return dict(exists=False, note="", tb="")
+    node = func_ast(fn)
+    tries = [n for n in node.body if isinstance(n, ast.Try)]
+    if len(tries) != 1 or len(node.body) != 1:
+        raise Inexpressible("_send_exception: body is not a single try statement")
+    t = tries[0]
+    if len(t.body) != 1 or "self._box_exc(t, v, tb)" not in _text(t.body[0]) or "MSG_EXCEPTION" not in _text(t.body[0]):
+        raise Inexpressible("_send_exception: the try body is not one send of self._box_exc(t, v, tb)")
+    hs = [(_text(h.type) if h.type is not None else None) for h in t.handlers]
+    if hs != ["EOFError", "Exception"] or not (len(t.handlers[0].body) == 1 and isinstance(t.handlers[0].body[0], ast.Raise)):
+        raise Inexpressible("_send_exception: handlers are %s" % hs)
+    note = name_expr = rec = None
+    for stmt in t.handlers[1].body:
+        if isinstance(stmt, ast.Assign) and _text(stmt.targets[0]) == "note":
+            note = _const_str(stmt.value)
+        elif isinstance(stmt, ast.Assign) and _text(stmt.targets[0]) == "name":
+            name_expr = _text(stmt.value)
+        elif isinstance(stmt, ast.Expr) and isinstance(stmt.value, ast.Call) and _text(stmt.value.func) == "self._send" \
+                and len(stmt.value.args) == 3 and isinstance(stmt.value.args[2], ast.Tuple):
+            rec = stmt.value.args[2]
+        else:
+            raise Inexpressible("_send_exception: unexpected statement in the fallback: %s" % _text(stmt)[:80])
+    if note is None or rec is None or name_expr is None or len(rec.elts) != 4:
+        raise Inexpressible("_send_exception: the fallback is not `name = ...; note = <literal>; self._send(.., .., (name, (note,), (), <literal>))`")
+    if "__module__" not in name_expr or "__name__" not in name_expr:
+        raise Inexpressible("_send_exception: the fallback's class name is %s" % name_expr)
+    e0, e1, e2, e3 = rec.elts
+    if _text(e0) != "name" or _text(e1) != "(note,)" or _text(e2) != "()" or _const_str(e3) is None:
+        raise Inexpressible("_send_exception: the fallback record is %s (its traceback field must be a literal)" % _text(rec))
+    return dict(exists=True, note=note, tb=_const_str(e3))
+
+
 def dump_facts(vinegar):
     node = func_ast(vinegar.dump)
     params = [a.arg for a in node.args.args]
@@ -115,6 +173,7 @@ def dump_facts(vinegar):
     tb_denied = None
     ver_denied = None
     ver_attr = set()
+    tb_guard = None
     for n in ast.walk(node):
         if isinstance(n, ast.Assign) and len(n.targets) == 1 and _text(n.targets[0]) == "ignored_attrs":
             try:
@@ -131,8 +190,10 @@ def dump_facts(vinegar):
             args_name = _const_str(n.comparators[0])
         if isinstance(n, ast.If) and _text(n.test) in ("include_local_traceback", "not include_local_traceback"):
             denied = n.orelse if _text(n.test) == "include_local_traceback" else n.body
+            allowed_tb = n.body if _text(n.test) == "include_local_traceback" else n.orelse
             if len(denied) == 1 and isinstance(denied[0], ast.Assign) and _text(denied[0].targets[0]) == "tbtext":
                 tb_denied = _const_str(denied[0].value)
+            tb_guard = tb_guard_shape(allowed_tb)
         if isinstance(n, ast.If) and _text(n.test) in ("include_local_version", "not include_local_version"):
             denied = n.orelse if _text(n.test) == "include_local_version" else n.body
             allowed = n.body if _text(n.test) == "include_local_version" else n.orelse
@@ -159,7 +220,10 @@ def dump_facts(vinegar):
     if ver_denied is None or len(ver_attr) != 1 or None in ver_attr:
         raise Inexpressible("dump: no `if include_local_version: attrs.append((<name>, version_string)) else: "
                             "attrs.append((<name>, <literal>))`")
-    return dict(exists=exists, noargs=noargs, ignored=ignored, prefix=prefix, args_name=args_name,
+    if tb_guard is None:
+        raise Inexpressible("dump: the allowed branch of `if include_local_traceback` is neither `tbtext = ...format_exception...` "
+                            "nor that inside `try: ... except Exception: tbtext = <literal>`")
+    return dict(tb_guarded=tb_guard[0], tb_unavailable=tb_guard[1], exists=exists, noargs=noargs, ignored=ignored, prefix=prefix, args_name=args_name,
                 tb_denied=tb_denied, ver_denied=ver_denied, ver_attr=ver_attr.pop())
 
 
@@ -270,6 +334,10 @@ def gen_vinegar():
           "def privatePrefix : List Nat := " + cps(d["prefix"]),
           "def argsNameText : String := " + lean_str(d["args_name"]),
           "def argsName : List Nat := " + cps(d["args_name"]),
+          "/-- is `traceback.format_exception` called inside `try: ... except Exception: tbtext = <literal>`, and that literal -/",
+          "def tbFormatGuarded : Bool := %s" % lean_bool(d["tb_guarded"]),
+          "def tracebackUnavailableText : String := " + lean_str(d["tb_unavailable"]),
+          "def tracebackUnavailable : List Nat := " + cps(d["tb_unavailable"]),
           "def tracebackDeniedText : String := " + lean_str(d["tb_denied"]),
           "def tracebackDenied : List Nat := " + cps(d["tb_denied"]),
           "def versionDeniedText : String := " + lean_str(d["ver_denied"]),
@@ -324,6 +392,14 @@ def gen_vinegar():
           "/-- `if t is <Class> and self._config[<key>]: raise` in `_dispatch_request` (AST) -/",
           "def localRoutes : List (String × String) := " + lean_list(
               ["(%s, %s)" % (lean_str(a), lean_str(b)) for a, b in local_routes(protocol)], 2)]
+    fb = fallback_facts(protocol)
+    L += ["", "/-- `Connection._send_exception` (AST): when dumping or sending the exception raises, the record",
+          "`((module, name), (note,), (), <literal>)` is sent instead -/",
+          "def fallbackExists : Bool := %s" % lean_bool(fb["exists"]),
+          "def fallbackNoteText : String := " + lean_str(fb["note"]),
+          "def fallbackNote : List Nat := " + cps(fb["note"]),
+          "def fallbackTbText : String := " + lean_str(fb["tb"]),
+          "def fallbackTb : List Nat := " + cps(fb["tb"])]
     try:
         hash(slice(1, 2, 3))
         sh = True
